@@ -246,7 +246,9 @@ prop('C08', level='other', design_ref='DESIGN.md section 6 (C08)',
                'bound': '40 (thorough: 240) generated histories of 4-11 steps (arrivals, chains of 3-8, evictions, confirmations, '
                         'generation-like inputs, 8 scripts); every eighth history is one refresh of 260-640 new transactions '
                         '(more than one fetch batch of 200) containing 3-6 chains of 5-11 links'}],
-     not_decided=['_accept_transactions / _process_mempool / _fetch_and_accept exactness not under deductive contract'], assumptions=[])
+     not_decided=['_accept_transactions / _process_mempool / _fetch_and_accept and the completeness of the query functions (nothing missing, '
+                  'balances as sums) are not under deductive contract; that transaction_summaries and unordered_UTXOs report only what '
+                  'the tracked transactions say (fee, positions, values, has-unconfirmed-inputs computed from the current set) is'], assumptions=[])
 prop('C09', level='other', design_ref='DESIGN.md section 6 (C09)',
      technique='deductive verification of the index-consistency invariant (as C08) + bounded native race injection against an '
                'independent mempool model',
